@@ -469,8 +469,9 @@ func gwPhasePairs(c *core.Ctx, worker string, n int) {
 	} else {
 		for i := 0; i < n; i++ {
 			r := rngFor(c, 2600+int64(i))
-			p1 := []int{0, 0, 80, 17, 0, 200}[i%6]
-			p2 := []int{80, 31, 0, 117, 5 + r.Intn(170), 80}[i%6]
+			// any phase shift: also negative ones and ones of a year and more (only the difference has to fit into a year)
+			p1 := []int{0, -30, 80, 364, 0, 200, -180, 400, 17, 0, 745, -1}[i%12]
+			p2 := []int{80, 0, 0, 370, 5 + r.Intn(170), 80, -45, 380, 117, 31, 800, 1}[i%12]
 			pairs = append(pairs, pair{Salt: 2700 + int64(i), P1: p1, P2: p2, Seed: c.Seed})
 		}
 	}
